@@ -563,6 +563,12 @@ func (rl *Shell) shellTransposeWords() {
 	rl.viSelectAShellWord()
 	toTranspose, tbpos, tepos, _ := rl.selection.Pop()
 
+	// Nothing to transpose (empty line, or no word selected)
+	if tbpos < 0 {
+		rl.cursor.Set(startPos)
+		return
+	}
+
 	// First move back the number of words
 	rl.cursor.Set(tbpos)
 	rl.backwardShellWord()
@@ -573,7 +579,7 @@ func (rl *Shell) shellTransposeWords() {
 
 	// We might be on the first word of the line,
 	// in which case we don't do anything.
-	if wepos > tbpos {
+	if wbpos < 0 || wepos > tbpos {
 		rl.cursor.Set(startPos)
 		return
 	}
